@@ -290,7 +290,8 @@ BoolExprs(N, S, Bc) ==
          \cup {<<"u", "is_null", C(c)>> : c \in S}
          \cup {<<"u", "not", <<"u", "is_null", C(c)>>>> : c \in N}
          \cup {<<"b", lop, <<"b", ">", C(p[1]), K(0)>>, <<"b", "<", C(p[2]), K(2)>>>> : lop \in LogicOps, p \in Pairs(N)}
-         \cup {<<"in", C(c), <<0, 2>>>> : c \in N}
+         \cup {<<"in", C(c), l>> : c \in N, l \in {<<0, 2>>, <<1, 2>>}}
+         \cup {<<"b", ">", C(c), K(2)>> : c \in N}
          \cup {C(c) : c \in Bc}
          \cup {<<"u", "not", C(c)>> : c \in Bc}
          \cup {<<"b", lop, C(p[1]), C(p[2])>> : lop \in LogicOps, p \in Pairs(Bc)}
